@@ -40,6 +40,10 @@ pub enum TP {
     PaddedA,
     PaddedInt,
     Regex(Re, u8),
+    /// digits(r).configure(|c, _| c.at_most(2)): the static minimum of one digit stays, a cap of two is added
+    DigitsCfg(u32),
+    /// whitespace().at_least(1), used through a clone of a clone
+    Ws1Clone,
 }
 
 impl TP {
@@ -47,6 +51,8 @@ impl TP {
         match self {
             TP::Int(r) => format!("int({})", r),
             TP::Digits(r) => format!("digits({})", r),
+            TP::DigitsCfg(r) => format!("digits({}).configure(at_most 2)", r),
+            TP::Ws1Clone => "whitespace().at_least(1).clone().clone()".to_string(),
             TP::AsciiIdent => "ascii::ident".into(),
             TP::UniIdent => "unicode::ident".into(),
             TP::AsciiKw(k) => format!("ascii::keyword({:?})", KWS[*k]),
@@ -79,6 +85,7 @@ pub fn fixed_parsers() -> Vec<TP> {
         v.push(TP::UniKw(k));
     }
     v.extend([TP::Ws, TP::Iws, TP::Newline, TP::PaddedA, TP::PaddedInt]);
+    v.extend([TP::DigitsCfg(10), TP::DigitsCfg(16), TP::Ws1Clone]);
     v
 }
 
@@ -117,6 +124,15 @@ pub fn longest_prefix(tp: &TP, s: &[char]) -> Option<(usize, usize, usize)> {
     match tp {
         TP::Int(r) => int_prefix(s, *r).and_then(whole),
         TP::Digits(r) => match run_of(s, |c| c.is_digit(*r)) {
+            0 => None,
+            n => whole(n),
+        },
+        // one or two digits (possessive: the cap stops the run)
+        TP::DigitsCfg(r) => match run_of(s, |c| c.is_digit(*r)) {
+            0 => None,
+            n => whole(n.min(2)),
+        },
+        TP::Ws1Clone => match run_of(s, char::is_whitespace) {
             0 => None,
             n => whole(n),
         },
@@ -421,6 +437,13 @@ pub fn build_str<'s>(tp: &TP) -> StrP<'s> {
     match tp {
         TP::Int(r) => fin!(slice text::int::<&str, ES>(*r)),
         TP::Digits(r) => fin!(unit text::digits::<&str, ES>(*r)),
+        TP::DigitsCfg(r) => fin!(unit text::digits::<&str, ES>(*r).configure(|c, _: &()| c.at_most(2))),
+        TP::Ws1Clone => {
+            let p = text::whitespace::<&str, ES>().at_least(1);
+            let c = p.clone().clone();
+            drop(p);
+            fin!(unit c)
+        }
         TP::AsciiIdent => fin!(slice text::ascii::ident::<&str, ES>()),
         TP::UniIdent => fin!(slice text::unicode::ident::<&str, ES>()),
         TP::AsciiKw(k) => fin!(slice text::ascii::keyword::<&str, &'static str, ES>(KWS[*k])),
@@ -453,6 +476,13 @@ pub fn build_u8<'s>(tp: &TP) -> U8P<'s> {
     match tp {
         TP::Int(r) => fin!(slice text::int::<&[u8], EB>(*r)),
         TP::Digits(r) => fin!(unit text::digits::<&[u8], EB>(*r)),
+        TP::DigitsCfg(r) => fin!(unit text::digits::<&[u8], EB>(*r).configure(|c, _: &()| c.at_most(2))),
+        TP::Ws1Clone => {
+            let p = text::whitespace::<&[u8], EB>().at_least(1);
+            let c = p.clone().clone();
+            drop(p);
+            fin!(unit c)
+        }
         TP::AsciiIdent => fin!(slice text::ascii::ident::<&[u8], EB>()),
         TP::UniIdent => fin!(slice text::unicode::ident::<&[u8], EB>()),
         TP::AsciiKw(k) => fin!(slice text::ascii::keyword::<&[u8], &'static [u8], EB>(KWS[*k].as_bytes())),
@@ -511,7 +541,8 @@ fn expected(tp: &TP, chars: &[char]) -> Option<Seen> {
 fn sig_for(tp: &TP, kind: &str, what: &str) -> String {
     let fam = match tp {
         TP::Int(_) => "int",
-        TP::Digits(_) => "digits",
+        TP::Digits(_) | TP::DigitsCfg(_) => "digits",
+        TP::Ws1Clone => "whitespace",
         TP::AsciiIdent | TP::UniIdent => "ident",
         TP::AsciiKw(_) | TP::UniKw(_) => "keyword",
         TP::Ws | TP::Iws => "whitespace",
@@ -569,13 +600,13 @@ fn diff(tp: &TP, kind: &str, chars: &[char], got: Result<Option<Seen>, String>, 
 pub fn nontrivial(tp: &TP, chars: &[char], want: &Option<Seen>) -> bool {
     let adj = |f: &dyn Fn(char) -> bool| chars.windows(2).any(|w| f(w[0]) != f(w[1]));
     match tp {
-        TP::Int(r) | TP::Digits(r) => chars.first() == Some(&'0') && chars.len() > 1 || adj(&|c| c.is_digit(*r)),
+        TP::Int(r) | TP::Digits(r) | TP::DigitsCfg(r) => chars.first() == Some(&'0') && chars.len() > 1 || adj(&|c| c.is_digit(*r)),
         TP::AsciiIdent | TP::UniIdent => chars.iter().any(|c| !c.is_ascii()) || adj(&|c| unicode_ident::is_xid_continue(c)),
         TP::AsciiKw(k) | TP::UniKw(k) => {
             let kw: Vec<char> = KWS[*k].chars().collect();
             chars.len() > kw.len() && chars[..kw.len()] == kw[..]
         }
-        TP::Ws | TP::Iws | TP::PaddedA | TP::PaddedInt => adj(&|c| c.is_whitespace()),
+        TP::Ws | TP::Iws | TP::PaddedA | TP::PaddedInt | TP::Ws1Clone => adj(&|c| c.is_whitespace()),
         TP::Newline => chars.starts_with(&['\r', '\n']) || adj(&is_terminator),
         TP::Regex(..) => match want {
             Some(w) => w.extent.1 == 0 || w.rest.1 > 0,
@@ -674,7 +705,7 @@ pub fn decode_random(tape: &[u32]) -> (TP, Vec<char>) {
     // half of the strings start the way the parser likes, so that long prefixes match
     if t.chance(1, 2) {
         let head: Vec<char> = match &tp {
-            TP::Int(_) | TP::Digits(_) | TP::PaddedInt => vec![['1', '0', '7', 'f', 'z'][t.pick(5)]],
+            TP::Int(_) | TP::Digits(_) | TP::DigitsCfg(_) | TP::PaddedInt => vec![['1', '0', '7', 'f', 'z'][t.pick(5)]],
             TP::AsciiKw(k) | TP::UniKw(k) => KWS[*k].chars().collect(),
             TP::AsciiIdent | TP::UniIdent => vec![['a', '_', 'é', 'λ', '𝐀'][t.pick(5)]],
             TP::Newline => vec!['\r'],
